@@ -72,7 +72,7 @@ def describe(text, interner):
     d = {"tok": interner.tok(text), "e": text == "", "w": text if text in WORDS else "",
          "int": False, "iv": 0, "ic": "", "fl": False, "c0": 0, "c100": 0, "cm1": 0, "c1": 0,
          "hex": False, "len": min(len(text), 1000), "gn": 0, "gf": False, "vok": False, "vfl": "1.4",
-         "clear": True}
+         "clear": True, "carr": not any(ch in text for ch in ";\n\r")}
     try:
         v = int(text)
         d["int"] = True
